@@ -84,6 +84,14 @@ def run(ctx, rep):
     C06.carry_rule(ctx, rep, "C07.e")
     from rules import typedid
     typedid.run(ctx, rep, "C07.a", owners=["index::indexer::Indexer.indexed"])
+    # the set of blobs written in this run survives intermediate index flushes: Indexer::reset does not touch `indexed`
+    RS = prog.find1(r"^rustic_core::index::indexer::Indexer::<BE>::reset$")
+    whole = [s_ for blk in RS.blocks for s_ in blk["s"] if s_[0] == "=" and s_[1][0] == 1 and s_[1][1:] == ["*"]]
+    fld = [s_ for blk in RS.blocks for s_ in blk["s"] if s_[0] == "=" and place_has_field(s_[1], "indexed")]
+    cl = [bb for bb, t in RS.calls() if "callee" in t and t["args"] and op_place(t["args"][0]) and "indexed" in ((flow.place_path(RS, op_place(t["args"][0])) or (None, []))[1]) and re.search(r"::(clear|take|retain|drain)$", callee(t))]
+    okr = not whole and not fld and not cl
+    rep.check("C07.a", "reset-keeps-written-set", okr, where=RS.loc(), what="Indexer::reset (called at every intermediate index flush) leaves the set of blobs written in this run untouched" if okr else
+              "Indexer::reset replaces or clears the set of blobs written in this run: content recurring after an intermediate flush is stored again")
     adds = [(b, bb, t) for b in prog.by_crate["rustic_core"] for bb, t in b.calls() if "callee" in t and ADD.search(callee(t))]
     rep.floor("C07.b", "Packer::add call sites", len(adds), 3)
     for (b, bb, t) in adds:
